@@ -23,6 +23,7 @@ import (
 	"mellium.im/xmpp/carbons"
 	"mellium.im/xmpp/delay"
 	"mellium.im/xmpp/forward"
+	"mellium.im/xmpp/receipts"
 	"mellium.im/xmpp/jid"
 	"mellium.im/xmpp/styling"
 	"mellium.im/xmpp/xtime"
@@ -231,7 +232,7 @@ func insertDoc(c *ctx, doc []byte, class string) {
 	for _, tf := range []struct {
 		name, model string
 		f           func(xml.TokenReader) xml.TokenReader
-	}{{"carbons.Private", "private", carbons.Private}, {"styling.Disable", "unstyled", styling.Disable}} {
+	}{{"carbons.Private", "private", carbons.Private}, {"styling.Disable", "unstyled", styling.Disable}, {"receipts.Request", "request", receipts.Request}} {
 		caseLine := fmt.Sprintf("udoc %s - %s", tf.model, common.Hex(doc))
 		r.Mark("case udoc")
 		r.Line(caseLine, "-")
@@ -268,6 +269,8 @@ func streamReplay(c *ctx, f []string) {
 		return
 	}
 	switch f[2] {
+	case "piter":
+		pageIterReplay(c, f)
 	case "0", "1", "2":
 		unwrapDoc(c, int(f[2][0]-'0'), f[3] == "1", doc, "replay")
 	default:
@@ -408,5 +411,24 @@ func streamCases(c *ctx) {
 		insertDoc(c, []byte(children), "enum")
 		insertDoc(c, []byte(`<iq xmlns="jabber:client">`+children+`</iq>`), "enum")
 		insertDoc(c, []byte(`<message xmlns="jabber:server">`+children+`</message>`), "enum")
+	}
+	// messages the stateful inserter (receipts.Request) treats differently: error type, a type
+	// attribute in another namespace first, a receipt element inside / before / in an earlier
+	// message, nested messages
+	rc := `<receipt xmlns="urn:xmpp:receipts"/>`
+	for _, d := range []string{
+		`<message xmlns="jabber:client" type="error"><body>x</body></message>`,
+		`<message xmlns="jabber:client" type="chat">` + rc + `</message>`,
+		`<message xmlns="jabber:client" type="chat"><x xmlns="urn:y">` + rc + `</x><body/></message>`,
+		`<message xmlns="jabber:client" xmlns:y="urn:y" y:type="error" type="chat"/>`,
+		`<message xmlns="jabber:client" xmlns:y="urn:y" type="chat" y:type="error"/>`,
+		rc + `<message xmlns="jabber:client"/>`,
+		`<message xmlns="jabber:client">` + rc + `</message><message xmlns="jabber:server"><body/></message>`,
+		`<message xmlns="jabber:client"><message xmlns="jabber:client" type="error"/></message>`,
+		`<message xmlns="jabber:client" type="error"><message xmlns="jabber:server"/></message>`,
+		`<iq xmlns="jabber:client">` + rc + `</iq><message xmlns="jabber:client"/>`,
+		`<message xmlns="urn:other"/><message xmlns="jabber:client"><receipt xmlns="urn:other"/></message>`,
+	} {
+		insertDoc(c, []byte(d), "enum")
 	}
 }
